@@ -14,6 +14,7 @@
 (*                             punctuation, 3 bytes                        *)
 (*    #  U+1F600 emoji         like the euro sign, 4 bytes                 *)
 (*    |  U+3000 ideographic sp white space, 3 bytes                        *)
+(*    \  U+0001 control char   like the euro sign, but a single byte       *)
 (*                                                                         *)
 (* Everything the lexer asks about a character is a predicate below, with  *)
 (* the meaning of Rust's char methods it uses (is_whitespace,              *)
